@@ -192,6 +192,53 @@ B_ROOT_KIND = {'get_libraries': 'library', 'get_definitions': 'definition', 'get
                'get_ports': 'port', 'get_cables': 'cable'}
 
 
+PARENT_KIND = dict((f, (pk, attr, bk)) for f, pk, attr, bk in STAGE_SHAPES)
+
+
+def stage_request(w, fname, roots, key, pats, is_case, is_re, registered, policy):
+    """One two-stage query whose candidates can be read off the netlist: roots are parents of the
+    queried kind and/or stage-B roots (see others_of). -> (request line, implementation answer)"""
+    pkind, attr, bk = PARENT_KIND[fname]
+    nk = fname == 'get_instances'
+    # candidates, in the order the implementation visits them (object_collection.pop())
+    plist = [o for o in reversed(roots) if w.kind(o) == pkind]
+    others = []
+    for o in reversed(roots):
+        if w.kind(o) != pkind:
+            others += others_of(fname, w, o)
+    cands = []
+    for p in plist:
+        cands += list(getattr(p, attr))
+    cands += others
+    ids = sorted(set(w.index[id(c)] for c in cands))
+    keys = ' '.join('%d %s' % (i, otok(w.objs[i][key] if key in w.objs[i] else None)) for i in ids)
+    par = ' '.join('%s %d %s' % (lookup_mode(key, policy, registered), len(getattr(p, attr)),
+                                 ' '.join(str(w.index[id(c)]) for c in getattr(p, attr))) for p in plist)
+    line = 'Q %s %s %s %s %d %s %d %s %d %s %d %s' % (
+        b(is_case), b(is_re), b(nk), bk, len(pats), ' '.join(tok_of_s(p) for p in pats),
+        len(ids), keys, len(plist), par, len(others), ' '.join(str(w.index[id(c)]) for c in others))
+    line = ' '.join(line.split())
+    rootarg = list(roots) if len(roots) != 1 else roots[0]
+    if registered:
+        st, R = qo.call(fname, rootarg, pats, key, is_case, is_re)
+    else:
+        with qo.LookupOff():
+            st, R = qo.call(fname, rootarg, pats, key, is_case, is_re)
+    impl = 'ERR ' + st if st != 'ok' else (','.join(str(x) for x in sorted(w.index[id(e)] for e in R)) or '-')
+    return line, impl, bool(plist), bool(others)
+
+
+def stage_candidates(w, fname, roots, key):
+    pkind, attr, bk = PARENT_KIND[fname]
+    cands = []
+    for o in roots:
+        if w.kind(o) == pkind:
+            cands += list(getattr(o, attr))
+        else:
+            cands += others_of(fname, w, o)
+    return cands
+
+
 def stage_requests(w, rng, policy, n_cases, stats):
     """-> list of (description, request line, implementation answer as sorted id list)"""
     by_kind = {}
@@ -200,7 +247,6 @@ def stage_requests(w, rng, policy, n_cases, stats):
     reqs = []
     for _ in range(n_cases):
         fname, pkind, attr, bk = rng.choice(STAGE_SHAPES)
-        nk = fname == 'get_instances'
         key = rng.choice(qo.KEYS)
         registered = rng.random() < 0.7
         # roots: 0-2 parents and 0-3 stage-B roots
@@ -211,17 +257,7 @@ def stage_requests(w, rng, policy, n_cases, stats):
             continue
         roots = list(parents) + list(broots)
         rng.shuffle(roots)
-        # candidates, in the order the implementation visits them (object_collection.pop())
-        plist = [o for o in reversed(roots) if o in parents]
-        others = []
-        for o in reversed(roots):
-            if o in broots:
-                for x in others_of(fname, w, o):
-                    others.append(x)
-        cands = []
-        for p in plist:
-            cands += list(getattr(p, attr))
-        cands += others
+        cands = stage_candidates(w, fname, roots, key)
         vals = [c[key] if key in c else '' for c in cands]
         patsets = qo.derive_patterns(rng, vals, 2)
         pats, is_case, is_re, shape = rng.choice(patsets)
@@ -230,25 +266,11 @@ def stage_requests(w, rng, policy, n_cases, stats):
             if p2[1] == is_case and p2[2] == is_re:
                 pats = pats + p2[0]
                 shape = shape + '+' + p2[3]
-        ids = sorted(set(w.index[id(c)] for c in cands))
-        keys = ' '.join('%d %s' % (i, otok(w.objs[i][key] if key in w.objs[i] else None)) for i in ids)
-        par = ' '.join('%s %d %s' % (lookup_mode(key, policy, registered), len(getattr(p, attr)),
-                                     ' '.join(str(w.index[id(c)]) for c in getattr(p, attr))) for p in plist)
-        line = 'Q %s %s %s %s %d %s %d %s %d %s %d %s' % (
-            b(is_case), b(is_re), b(nk), bk, len(pats), ' '.join(tok_of_s(p) for p in pats),
-            len(ids), keys, len(plist), par, len(others), ' '.join(str(w.index[id(c)]) for c in others))
-        line = ' '.join(line.split())
-        rootarg = roots if len(roots) != 1 else roots[0]
-        if registered:
-            st, R = qo.call(fname, rootarg, pats, key, is_case, is_re)
-        else:
-            with qo.LookupOff():
-                st, R = qo.call(fname, rootarg, pats, key, is_case, is_re)
-        impl = 'ERR ' + st if st != 'ok' else (','.join(str(x) for x in sorted(w.index[id(e)] for e in R)) or '-')
+        line, impl, hasA, hasB = stage_request(w, fname, roots, key, pats, is_case, is_re, registered, policy)
         desc = dict(level='stage', function=fname, roots=['E%d' % w.index[id(o)] for o in roots], key=key,
                     pats=pats, is_case=is_case, is_re=is_re, shape=shape, registered=registered, policy=policy,
                     request=line)
-        stats['stage:%s:%s%s' % (fname, 'A' if plist else '', 'B' if others else '')] += 1
+        stats['stage:%s:%s%s' % (fname, 'A' if hasA else '', 'B' if hasB else '')] += 1
         reqs.append((desc, line, impl))
     # get_netlists: any elements as roots
     for _ in range(max(1, n_cases // 8)):
